@@ -29,9 +29,21 @@ ProbeStep(c) ==
   /\ cst' = [cst EXCEPT ![c] = "released"] /\ cl' = [cl EXCEPT ![c] = listener]
   /\ UNCHANGED <<running, listener, lstate, nextid, counter, wg, names, cancelled, spc, sl, tmo, acc, sret, rounds, expiries,
                  sdpc, bdpc, rgpc, rgarg, rgret, gate, g_sdWaiting, g_sdDoneAt, g_servedEp, g_regs>>
+(* net effect of a client that connects, is accepted and handled, and stays: Hold; it may introspect any number of *)
+(* times while it is open (Ask: no change of state) - also while the service drains after a Shutdown - and leaves (Drop) *)
+HoldStep(c) ==
+  /\ cst[c] = "idle" /\ spc = "accept" /\ listener # 0 /\ lstate[listener] = "open" /\ sl = listener
+  /\ cst' = [cst EXCEPT ![c] = "handled"] /\ cl' = [cl EXCEPT ![c] = listener]
+  /\ counter' = counter + 1 /\ wg' = wg + 1
+  /\ UNCHANGED <<running, listener, lstate, nextid, names, cancelled, spc, sl, tmo, acc, sret, rounds, expiries,
+                 sdpc, bdpc, rgpc, rgarg, rgret, gate, g_sdWaiting, g_sdDoneAt, g_servedEp, g_regs>>
 MacroStep ==
   /\ Len(sched) < MaxOps
-  /\ \/ spc = "idle" /\ B_Check /\ Op([op |-> "Install"])
+  /\ \/ (\E d \in Clients : cst[d] = "idle")
+          /\ LET c == CHOOSE d \in Clients : cst[d] = "idle" IN HoldStep(c) /\ Op([op |-> "Hold", c |-> c])
+     \/ \E c \in Clients : cst[c] = "handled" /\ Op([op |-> "Ask", c |-> c]) /\ UNCHANGED vars
+     \/ \E c \in Clients : cst[c] = "handled" /\ EndClient(c) /\ Op([op |-> "Drop", c |-> c])
+     \/ spc = "idle" /\ B_Check /\ Op([op |-> "Install"])
      \/ ServeStart(FALSE, FALSE) /\ Op([op |-> "Serve", timeout |-> FALSE, gate |-> FALSE])
      \/ (\E d \in Clients : cst[d] = "idle")
           /\ LET c == CHOOSE d \in Clients : cst[d] = "idle" IN ProbeStep(c) /\ Op([op |-> "Probe", c |-> c])
